@@ -52,7 +52,15 @@ def program(rng, **opts):
     o = dict(size=rng.choice([1, 2, 3, 4, 6]), depth=rng.choice([1, 2, 3]), edepth=rng.choice([1, 2, 3]))
     o.update(opts)
     seed = rng.getrandbits(32)
+    gap = o.pop("gap_comments", .3)
     P = gen.generate(seed, **o)
+    if rng.random() < gap:
+        # comment lines in arbitrary token gaps (between a keyword and a name, inside expressions, before separators ...)
+        n = 0
+        for t in list(P.toks):
+            if t.kind != "comment" and rng.random() < .08:
+                n += 1; t.lead.append(gen.Tok("comment", "// gap %d %s" % (n, rng.choice(["", "ü€", "a, b", "x := 1;"]))))
+        P.index()
     eol = rng.choice(["\n", "\n", "\r\n"])
     style = rng.choice(["random", "random", "spaced", "compact", "lines"])
     stray = style == "random" and rng.random() < .25      # lone carriage returns: line breaks for LSP positions, white space for SPL
